@@ -205,6 +205,10 @@ func (n *LocalNode) FinishLeave(stabilize bool, release bool) error {
 			n.logger.Error("Unable to release membership lock", zap.String("state", curr.String()))
 			return chord.ErrLeaveInvalidState
 		}
+		// the leaver (our predecessor) is gone by now: drop the stale pointer right away, so
+		// that a join request arriving before the next predecessor check is not handed a
+		// key range computed from the departed node
+		n.checkPredecessor()
 	}
 	return nil
 }
